@@ -7,6 +7,7 @@ import NV.C12.Model
 import NV.C12.Spec
 import NV.C12.Lemmas
 import NV.C12.Lemmas3
+import NV.C12.Lemmas4
 
 namespace NV.C12
 
@@ -49,7 +50,7 @@ theorem processIO_safe (w : World) (hs : Safe w) : Safe (processIO w).1 := by
     have hgrow : w.slots.length = 0 → 0 < (if newSlot w.slots ≥ w.slots.length then w.slots ++ List.replicate growBy none else w.slots).length := by
       intro h0
       have : newSlot w.slots ≥ w.slots.length := by omega
-      simp [this, growBy]
+      simp [this, growBy, NV.Gen.C12.growBy]
     rcases hs.2 with h | h
     · left; simp only [List.length_set]; omega
     · left; simp only [List.length_set]; have := hgrow h.1; omega
@@ -62,38 +63,143 @@ theorem cycleStep_safe (sc : Scripts) (w : World) (hs : Safe w) : Safe (cycleSte
   have h2 := processIO_safe _ h1
   exact (cmdLoop_spec sc _ _ h2).1
 
+/-! ### uncaught errors: the restarted loop
+
+`Quiet`: the state between two harness actions - the cursor invariant holds and no error is unwinding. -/
+
+def Quiet (w : World) : Prop := Safe w ∧ w.thrown = false
+
+/-- **induction principle for the iterations between two hook calls** (`cycleRun`): a relation between an oracle
+    state and the world that every single iteration keeps (started from a quiet world) and that does not look at the
+    `thrown` flag is kept by the whole run, however often the loop is restarted by uncaught errors; the run ends
+    quiet.  The fuel `weight w + 1` is never exhausted: every aborted iteration is strictly lighter
+    (`cycleStep_weight`). -/
+theorem cycleRun_fold {σ : Type} (sc : Scripts) (g : σ → Ev → σ) (R : σ → World → Prop)
+    (hstep : ∀ s w, R s w → Quiet w → R ((cycleStep sc w).2.foldl g s) (cycleStep sc w).1)
+    (hclear : ∀ s w, R s w → R s { w with thrown := false }) :
+    ∀ (f : Nat) (w : World) (s : σ), R s w → Quiet w → weight w < f →
+      R ((cycleRun sc f w).2.foldl g s) (cycleRun sc f w).1 ∧ Quiet (cycleRun sc f w).1 := by
+  intro f
+  induction f with
+  | zero => intro w s _ _ h; omega
+  | succ f ih =>
+    intro w s hr hq hf
+    have h1 := hstep s w hr hq
+    have hsafe := cycleStep_safe sc w hq.1
+    have hw := cycleStep_weight sc w hq.2
+    unfold cycleRun
+    cases hc : cycleStep sc w with
+    | mk w1 e1 =>
+      rw [hc] at h1 hsafe hw
+      dsimp only at h1 hsafe hw ⊢
+      split
+      · rename_i hthr
+        have hlt := hw hthr
+        have hq' : Quiet { w1 with thrown := false } := ⟨⟨hsafe.1, hsafe.2⟩, rfl⟩
+        have hwt : weight { w1 with thrown := false } < f := by
+          have : weight { w1 with thrown := false } = weight w1 := rfl
+          omega
+        obtain ⟨i1, i2⟩ := ih { w1 with thrown := false } (e1.foldl g s) (hclear _ _ h1) hq' hwt
+        dsimp only
+        refine ⟨?_, i2⟩
+        rw [List.foldl_append]
+        exact i1
+      · rename_i hthr
+        exact ⟨h1, hsafe, by simpa using hthr⟩
+
+/-- the same principle for relations that do not need the cursor invariant (no fuel argument: the relation must
+    also survive the "bound exhausted" outcome, which `cycleRun_quiet` shows to be unreachable) -/
+theorem cycleRun_fold' {σ : Type} (sc : Scripts) (g : σ → Ev → σ) (R : σ → World → Prop)
+    (hstep : ∀ s w, R s w → R ((cycleStep sc w).2.foldl g s) (cycleStep sc w).1)
+    (hclear : ∀ s w, R s w → R s { w with thrown := false })
+    (hcrash : ∀ s w, R s w → R (g s (Ev.crash "restart bound of the model exhausted")) { w with crashed := true }) :
+    ∀ (f : Nat) (w : World) (s : σ), R s w → R ((cycleRun sc f w).2.foldl g s) (cycleRun sc f w).1 := by
+  intro f
+  induction f with
+  | zero => intro w s hr; exact hcrash s w hr
+  | succ f ih =>
+    intro w s hr
+    have h1 := hstep s w hr
+    unfold cycleRun
+    cases hc : cycleStep sc w with
+    | mk w1 e1 =>
+      rw [hc] at h1
+      dsimp only at h1 ⊢
+      split
+      · dsimp only
+        rw [List.foldl_append]
+        exact ih _ _ (hclear _ _ h1)
+      · exact h1
+
+/-- the run between two hook calls ends quiet: cursor inside the table, no crash - in particular the restart bound of
+    the model is never exhausted - and no error pending -/
+theorem cycleRun_quiet (sc : Scripts) (f : Nat) (w : World) (hq : Quiet w) (hf : weight w < f) :
+    Quiet (cycleRun sc f w).1 :=
+  (cycleRun_fold sc (fun (s : Unit) _ => s) (fun _ _ => True) (fun _ _ _ _ => trivial) (fun _ _ _ => trivial)
+    f w () trivial hq hf).2
+
+/-- **the last iteration completes**: the run between two hook calls ends with an iteration of backend() that was
+    started from a quiet world and was not aborted; every theorem about a completed iteration (`loop_bound_sufficient`,
+    `no_starvation`) therefore speaks about the state the hook observes -/
+theorem cycleRun_last (sc : Scripts) (f : Nat) (w : World) (hq : Quiet w) (hf : weight w < f) :
+    ∃ w0, Quiet w0 ∧ (cycleStep sc w0).1.thrown = false ∧ (cycleRun sc f w).1 = (cycleStep sc w0).1 := by
+  induction f generalizing w with
+  | zero => omega
+  | succ f ih =>
+    have hsafe := cycleStep_safe sc w hq.1
+    have hw := cycleStep_weight sc w hq.2
+    unfold cycleRun
+    cases hc : cycleStep sc w with
+    | mk w1 e1 =>
+      rw [hc] at hsafe hw
+      dsimp only at hsafe hw ⊢
+      split
+      · rename_i hthr
+        have hlt := hw hthr
+        have hq' : Quiet { w1 with thrown := false } := ⟨⟨hsafe.1, hsafe.2⟩, rfl⟩
+        have hwt : weight { w1 with thrown := false } < f := by
+          have : weight { w1 with thrown := false } = weight w1 := rfl
+          omega
+        obtain ⟨w0, i1, i2, i3⟩ := ih { w1 with thrown := false } hq' hwt
+        exact ⟨w0, i1, i2, by dsimp only; exact i3⟩
+      · rename_i hthr
+        exact ⟨w, hq, by rw [hc]; simpa using hthr, by rw [hc]⟩
+
 /-- **cursor_in_bounds** (memory safety of `all_users[s_next_user]`): the invariant "the cursor indexes inside the
     table, or the table does not exist yet" is kept by every harness action, for every script oracle: by the grant
     step, by accepts that grow the table, by users vanishing between and inside cycles, by every scan.  In particular the
     crash outcome of the model (index outside the table) is unreachable.  (`max_users` never shrinks in the code.) -/
-theorem cursor_in_bounds (sc : Scripts) (w : World) (c : Cmd) (hs : Safe w) : Safe (step sc w c).1 := by
+theorem cursor_in_bounds (sc : Scripts) (w : World) (c : Cmd) (hq : Quiet w) : Quiet (step sc w c).1 := by
+  have hs := hq.1
   cases c with
   | cycle =>
-    have : step sc w .cycle = cycleStep sc w := by simp [step, hs.1]
-    rw [this]; exact cycleStep_safe sc w hs
+    have : step sc w .cycle = cycleRun sc (weight w + 1) w := by simp [step, hs.1]
+    rw [this]; exact cycleRun_quiet sc _ w hq (by omega)
   | conn =>
     have : (step sc w .conn).1 = { w with nconn := w.nconn + 1 } := by simp [step, hs.1]
-    rw [this]; exact ⟨hs.1, hs.2⟩
+    rw [this]; exact ⟨⟨hs.1, hs.2⟩, hq.2⟩
   | send u d =>
     simp only [step, hs.1, Bool.false_eq_true, if_false]
     split
-    · exact ⟨rfl, hs.2⟩
-    · exact hs
+    · exact ⟨⟨rfl, hs.2⟩, hq.2⟩
+    · exact hq
   | close u =>
     simp only [step, hs.1, Bool.false_eq_true, if_false]
     split
-    · exact ⟨rfl, hs.2⟩
-    · exact hs
+    · exact ⟨⟨rfl, hs.2⟩, hq.2⟩
+    · exact hq
+
+theorem quiet_init : Quiet ({} : World) := ⟨⟨rfl, Or.inr ⟨rfl, rfl⟩⟩, rfl⟩
+
+theorem run_quiet (sc : Scripts) (cs : List Cmd) (w : World) (hq : Quiet w) : Quiet (run sc w cs).1 := by
+  induction cs generalizing w with
+  | nil => exact hq
+  | cons c r ih => exact ih _ (cursor_in_bounds sc w c hq)
 
 /-- from the initial state no history of connects, sends, closes and cycles, with any scripts, ever reaches the
     out-of-range access (`crash` clause of the oracle) -/
 theorem run_never_crashes (sc : Scripts) (cs : List Cmd) : (run sc {} cs).1.crashed = false := by
-  have key : ∀ (cs : List Cmd) (w : World), Safe w → Safe (run sc w cs).1 := by
-    intro cs
-    induction cs with
-    | nil => intro w h; exact h
-    | cons c r ih => intro w h; exact ih _ (cursor_in_bounds sc w c h)
-  exact (key cs {} ⟨rfl, Or.inr ⟨rfl, rfl⟩⟩).1
+  exact (run_quiet sc cs {} quiet_init).1.1
 
 example : Safe (run (fun _ _ => []) {} [.conn, .cycle, .send 1 "a~b~".toList, .cycle]).1 :=
   ⟨run_never_crashes _ _, by decide⟩
@@ -118,9 +224,10 @@ theorem at_most_one_per_user_per_cycle (sc : Scripts) (w : World) (hs : Safe w) 
   have hio : cmdCount u (processIO { w with cycle := w.cycle + 1, users := grantAll w.users w.slots }).2 = 0 := by
     unfold processIO; dsimp only; split <;> simp [cmdCount, Ev.isCmdOf]
   simp only [cmdCount_append, hio]
-  have hhead : cmdCount u [Ev.begin (w.cycle + 1), Ev.poll (w.cycle + 1) (!hasPending w)] = 0 := by
+  have hhead : cmdCount u [Ev.begin (w.cycle + 1), Ev.poll (w.cycle + 1) (pollBlocks (hasPending w))] = 0 := by
     simp [cmdCount, Ev.isCmdOf]
-  rw [hhead, cmdCount_ite_zero u _ _ _ (by simp [cmdCount, Ev.isCmdOf]) (by simp [cmdCount, Ev.isCmdOf])]
+  rw [hhead, cmdCount_ite_zero u _ _ _ (by simp [cmdCount, Ev.isCmdOf])
+    (cmdCount_ite_zero u _ _ _ (by simp [cmdCount, Ev.isCmdOf]) (by simp [cmdCount, Ev.isCmdOf]))]
   have : (if turnOf (processIO { w with cycle := w.cycle + 1, users := grantAll w.users w.slots }).1 u = true then 1 else 0) ≤ 1 := by
     split <;> omega
   omega
@@ -147,7 +254,9 @@ theorem command_efun_unlimited (sc : Scripts) (f : Nat) (w : World) (me t : Nat)
   simp only [halive, if_true]
   split
   · exact ⟨_, rfl⟩
-  · exact ⟨_, rfl⟩
+  · split
+    · exact ⟨_, rfl⟩
+    · exact ⟨_, rfl⟩
 
 /-- **command_efun_needs_no_turn**: whatever a script does (any number of nested `command()` calls, kicks, drops,
     get_char / input_to), it neither consumes nor grants any turn and produces no buffered-command event; so
@@ -258,11 +367,18 @@ theorem cycleStep_world (sc : Scripts) (w : World) :
     process_user_command) never cuts off an eligible user: when a backend cycle ends, nobody in the table holds a turn
     together with a complete flagged command - for every layout (gaps), cursor, queue depth, users connecting in this
     cycle's process_io, users kicked / dropped / switched to single-char mode from inside commands, command() calls. -/
-theorem loop_bound_sufficient (sc : Scripts) (w : World) (hs : Safe w) : ∀ u, elig (cycleStep sc w).1 u = false := by
-  rw [cycleStep_world]
+theorem loop_bound_sufficient (sc : Scripts) (w : World) (hs : Safe w) (hfin : (cycleStep sc w).1.thrown = false) :
+    ∀ u, elig (cycleStep sc w).1 u = false := by
+  rw [cycleStep_world] at hfin ⊢
   have h1 : Safe (cmdPhaseStart w) := processIO_safe _ ⟨hs.1, hs.2⟩
   have h2 := turns_at_most_connected_users w
-  exact cmdLoop_complete sc _ _ h1 (by simp only [loopCalls_spec]; omega)
+  exact cmdLoop_complete sc _ _ h1 (by simp only [loopCalls_spec]; omega) hfin
+
+/-- the same for what the hook observes after any number of aborted and restarted iterations -/
+theorem loop_bound_sufficient_run (sc : Scripts) (w : World) (hq : Quiet w) :
+    ∀ u, elig (cycleRun sc (weight w + 1) w).1 u = false := by
+  obtain ⟨w0, h1, h2, h3⟩ := cycleRun_last sc (weight w + 1) w hq (by omega)
+  rw [h3]; exact loop_bound_sufficient sc w0 h1.1 h2
 
 theorem cycleStep_cmdCount (sc : Scripts) (w : World) (u : Nat) :
     cmdCount u (cycleStep sc w).2 = cmdCount u (cmdLoop sc (NV.Gen.C12.loopCalls (connectedUsers w) w.maxUsers) (cmdPhaseStart w)).2 := by
@@ -271,22 +387,25 @@ theorem cycleStep_cmdCount (sc : Scripts) (w : World) (u : Nat) :
   have hio : cmdCount u (processIO { w with cycle := w.cycle + 1, users := grantAll w.users w.slots }).2 = 0 := by
     unfold processIO; dsimp only; split <;> simp [cmdCount, Ev.isCmdOf]
   simp only [cmdCount_append, hio]
-  have hhead : cmdCount u [Ev.begin (w.cycle + 1), Ev.poll (w.cycle + 1) (!hasPending w)] = 0 := by
+  have hhead : cmdCount u [Ev.begin (w.cycle + 1), Ev.poll (w.cycle + 1) (pollBlocks (hasPending w))] = 0 := by
     simp [cmdCount, Ev.isCmdOf]
   rw [hhead]
-  rw [cmdCount_ite_zero u _ _ _ (by simp [cmdCount, Ev.isCmdOf]) (by simp [cmdCount, Ev.isCmdOf])]
+  rw [cmdCount_ite_zero u _ _ _ (by simp [cmdCount, Ev.isCmdOf])
+    (cmdCount_ite_zero u _ _ _ (by simp [cmdCount, Ev.isCmdOf]) (by simp [cmdCount, Ev.isCmdOf]))]
   omega
 
 /-- **no_starvation** (clause `starved`): a user that sits in the table holding a turn and a complete flagged command
     when the command phase of a cycle starts is served exactly once in that cycle, or has left the table (kick / drop
     from inside a command) when the cycle ends - whatever the layout, the cursor position, the queue depths of the
     others and their scripts are. -/
-theorem no_starvation (sc : Scripts) (w : World) (hs : Safe w) (u : Nat) (he : elig (cmdPhaseStart w) u = true) :
+theorem no_starvation (sc : Scripts) (w : World) (hs : Safe w) (u : Nat) (he : elig (cmdPhaseStart w) u = true)
+    (hfin : (cycleStep sc w).1.thrown = false) :
     cmdCount u (cycleStep sc w).2 = 1 ∨ (cycleStep sc w).1.interactive u = false := by
+  rw [cycleStep_world] at hfin
   rw [cycleStep_cmdCount, cycleStep_world]
   have h1 : Safe (cmdPhaseStart w) := processIO_safe _ ⟨hs.1, hs.2⟩
   have h2 := turns_at_most_connected_users w
-  exact cmdLoop_serves sc _ _ h1 (by simp only [loopCalls_spec]; omega) u he
+  exact cmdLoop_serves sc _ _ h1 (by simp only [loopCalls_spec]; omega) u he hfin
 
 -- non-vacuity: three users in a sparse table (slot 2 freed), deep queue for user 1, one line for user 3: both are
 -- eligible when the command phase starts and both are served
